@@ -1,5 +1,5 @@
 @unit cw20
-@shim core.rs cw_utils.rs cw2.rs std_adapters.rs
+@shim core.rs cw_utils.rs std_more.rs cw2.rs std_adapters.rs
 @properties C01 C02 C13 C19
 
 // ===================================================================== extracted data types
@@ -374,10 +374,11 @@ pub open spec fn step_update_minter(s: Raw, t: Raw, sender: Seq<char>, new_minte
     ensures res is Ok ==> res->Ok_0@ == new_minter@
 @closure 2 C13.update_minter_keeps_cap
     (res: MinterData)
-    ensures res == (MinterData { minter, cap: mint.cap })
+    ensures res == (MinterData { minter, cap: tinfo(s0)->Some_0.mint->Some_0.cap })
 @prefix
     broadcast use cw20_axioms, string_conv;
     proof { lemma_ns(); }
+    let ghost s0 = deps.storage.view();
 @insert_before "TOKEN_INFO.save(" 1
     proof { lemma_other_ns(deps.storage.view(), ti_key(), config.ser()); lemma_mirror_frame(deps.storage.view(), ti_key(), config.ser()); }
 @end
@@ -1257,3 +1258,51 @@ pub proof fn lemma_c13_history(st: Seq<Raw>, calls: Seq<Call>, i: int, j: int)
         }
     }
 }
+
+// ===================================================================== the query entry point routes every message to its query function
+// the three listings are verified in unit cw20enum; here they are declarations only (no contract is assumed about them): the
+// dispatcher's contract says that the answer is the JSON of a value the routed function can return on exactly these arguments
+@enum contracts/cw20-base/src/msg.rs QueryMsg
+@struct packages/cw20/src/query.rs AllowanceInfo
+@struct packages/cw20/src/query.rs AllAllowancesResponse [noderive]
+@struct packages/cw20/src/query.rs SpenderAllowanceInfo
+@struct packages/cw20/src/query.rs AllSpenderAllowancesResponse [noderive]
+@struct packages/cw20/src/query.rs AllAccountsResponse [noderive]
+@struct packages/cw20/src/query.rs DownloadLogoResponse
+impl JsonT for BalanceResponse { uninterp spec fn json(self) -> Seq<u8>; uninterp spec fn unjson(b: Seq<u8>) -> Option<Self>; }
+impl JsonT for TokenInfoResponse { uninterp spec fn json(self) -> Seq<u8>; uninterp spec fn unjson(b: Seq<u8>) -> Option<Self>; }
+impl JsonT for MinterResponse { uninterp spec fn json(self) -> Seq<u8>; uninterp spec fn unjson(b: Seq<u8>) -> Option<Self>; }
+impl JsonT for Option<MinterResponse> { uninterp spec fn json(self) -> Seq<u8>; uninterp spec fn unjson(b: Seq<u8>) -> Option<Self>; }
+impl JsonT for AllowanceResponse { uninterp spec fn json(self) -> Seq<u8>; uninterp spec fn unjson(b: Seq<u8>) -> Option<Self>; }
+impl JsonT for AllAllowancesResponse { uninterp spec fn json(self) -> Seq<u8>; uninterp spec fn unjson(b: Seq<u8>) -> Option<Self>; }
+impl JsonT for AllSpenderAllowancesResponse { uninterp spec fn json(self) -> Seq<u8>; uninterp spec fn unjson(b: Seq<u8>) -> Option<Self>; }
+impl JsonT for AllAccountsResponse { uninterp spec fn json(self) -> Seq<u8>; uninterp spec fn unjson(b: Seq<u8>) -> Option<Self>; }
+impl JsonT for MarketingInfoResponse { uninterp spec fn json(self) -> Seq<u8>; uninterp spec fn unjson(b: Seq<u8>) -> Option<Self>; }
+impl JsonT for DownloadLogoResponse { uninterp spec fn json(self) -> Seq<u8>; uninterp spec fn unjson(b: Seq<u8>) -> Option<Self>; }
+@fn contracts/cw20-base/src/enumerable.rs query_owner_allowances [assume]
+@end
+@fn contracts/cw20-base/src/enumerable.rs query_spender_allowances [assume]
+@end
+@fn contracts/cw20-base/src/enumerable.rs query_all_accounts [assume]
+@end
+@fn contracts/cw20-base/src/contract.rs query_marketing_info [assume]
+@end
+@fn contracts/cw20-base/src/contract.rs query_download_logo [assume]
+@end
+@fn contracts/cw20-base/src/contract.rs query
+@ensures C01.query_routes C02 C13 C19 C20
+    r is Ok ==> match msg {
+        QueryMsg::Balance { address } => exists|x: BalanceResponse| r->Ok_0@ == x.json() && call_ensures(query_balance, (deps, address), Ok::<BalanceResponse, StdError>(x)),
+        QueryMsg::TokenInfo {} => exists|x: TokenInfoResponse| r->Ok_0@ == x.json() && call_ensures(query_token_info, (deps,), Ok::<TokenInfoResponse, StdError>(x)),
+        QueryMsg::Minter {} => exists|x: Option<MinterResponse>| r->Ok_0@ == x.json() && call_ensures(query_minter, (deps,), Ok::<Option<MinterResponse>, StdError>(x)),
+        QueryMsg::Allowance { owner, spender } => exists|x: AllowanceResponse| r->Ok_0@ == x.json() && call_ensures(query_allowance, (deps, owner, spender), Ok::<AllowanceResponse, StdError>(x)),
+        QueryMsg::AllAllowances { owner, start_after, limit } => exists|x: AllAllowancesResponse| r->Ok_0@ == x.json()
+            && call_ensures(query_owner_allowances, (deps, owner, start_after, limit), Ok::<AllAllowancesResponse, StdError>(x)),
+        QueryMsg::AllSpenderAllowances { spender, start_after, limit } => exists|x: AllSpenderAllowancesResponse| r->Ok_0@ == x.json()
+            && call_ensures(query_spender_allowances, (deps, spender, start_after, limit), Ok::<AllSpenderAllowancesResponse, StdError>(x)),
+        QueryMsg::AllAccounts { start_after, limit } => exists|x: AllAccountsResponse| r->Ok_0@ == x.json()
+            && call_ensures(query_all_accounts, (deps, start_after, limit), Ok::<AllAccountsResponse, StdError>(x)),
+        QueryMsg::MarketingInfo {} => exists|x: MarketingInfoResponse| r->Ok_0@ == x.json() && call_ensures(query_marketing_info, (deps,), Ok::<MarketingInfoResponse, StdError>(x)),
+        QueryMsg::DownloadLogo {} => exists|x: DownloadLogoResponse| r->Ok_0@ == x.json() && call_ensures(query_download_logo, (deps,), Ok::<DownloadLogoResponse, StdError>(x)),
+    }
+@end
